@@ -1,0 +1,154 @@
+//go:build verif
+
+// C14: contracts for the change-conflict checks (govc, /verif). Only compiled with -tags verif.
+
+package snapstate
+
+// ---- which changes take part in conflict detection ---------------------------------------------
+
+// a change is left out of conflict detection exactly when there is none, it is ready, it is the one
+// the caller asked to ignore, or it is of the two kinds excepted by design
+//@ define irrelevantChange(chg *state.Change, ignore string) = chg == nil || changeIsReady(chg) || (ignore != "" && chg.id == ignore) || chg.kind == "pre-download" || chg.kind == "become-operational"
+
+//@ func isIrrelevantChange
+//@   props C14
+//@   ensures result == irrelevantChange(chg, ignoreChangeID)
+
+// ---- exclusive changes ----------------------------------------------------------------------------
+
+// a change is in progress when its explicitly set status is not a ready one or, without an explicit
+// status, when one of its tasks still is to be done, running, to be undone, being undone, aborting or
+// waiting (this is when state.Change.Status() reports a status that is not ready)
+//@ define unreadyChange(c *state.Change) = (c.status != state.DefaultStatus && !c.status.Ready()) || (c.status == state.DefaultStatus && (someTaskHas(c, state.DoStatus) || someTaskHas(c, state.DoingStatus) || someTaskHas(c, state.UndoStatus) || someTaskHas(c, state.UndoingStatus) || someTaskHas(c, state.AbortStatus) || someTaskHas(c, state.WaitStatus)))
+
+// kinds of changes that exclude every other change while they are in progress (the caller's own
+// remodel / recovery-system change is let through)
+//@ define blocksEverything(c *state.Change, ignore string) = c.kind == "transition-ubuntu-core" || c.kind == "transition-to-snapd-snap" || ((c.kind == "remodel" || c.kind == "create-recovery-system" || c.kind == "remove-recovery-system") && !(ignore != "" && c.id == ignore))
+
+//@ define snapRefreshKind(c *state.Change) = c.kind == "revert-snap" || c.kind == "refresh-snap"
+
+// type invariant of the state: no nil change is registered
+//@ define changesNonNil(st *state.State) = forall k string :: has(st.changes, k) ==> st.changes[k] != nil
+
+//@ func changeIsSnapdDowngrade
+//@   props C14
+//@   assigns nothing
+//@   ensures [verdict-without-error] result0 ==> result1 == nil
+//@   ensures [older-version] result0 && final(snapsup).Version != "" ==> strutil.specVer(final(currentInfo).Version, final(snapsup).Version) == 1
+//@   ensures [not-older] !result0 && result1 == nil && final(snapsup) != nil && final(snapsup).SideInfo.RealName == "snapd" ==> final(snapsup).Version != "" && strutil.specVer(final(currentInfo).Version, final(snapsup).Version) != 1
+
+//@ func checkChangeConflictExclusiveKinds
+//@   props C14
+//@   requires changesNonNil(st)
+//@   ensures [exclusive-in-progress] result == nil ==> forall k string :: has(st.changes, k) && unreadyChange(st.changes[k]) ==> !blocksEverything(st.changes[k], ignoreChangeID)
+//@   ensures [new-exclusive-except-refresh] result == nil && newExclusiveChangeKind != "" ==> forall k string :: has(st.changes, k) && unreadyChange(st.changes[k]) ==> snapRefreshKind(st.changes[k]) || (ignoreChangeID != "" && st.changes[k].id == ignoreChangeID)
+//@   loop 0: invariant -1 <= idx0 && idx0 < len(ranged0)
+//@   loop 0: invariant forall j int :: {ranged0[j]} 0 <= j && j < len(ranged0) ==> ranged0[j] != nil
+//@   loop 0: invariant forall k string :: has(st.changes, k) ==> exists i int :: 0 <= i && i < len(ranged0) && ranged0[i] == st.changes[k]
+//@   loop 0: invariant forall j int :: {ranged0[j]} 0 <= j && j <= idx0 && unreadyChange(ranged0[j]) ==> !blocksEverything(ranged0[j], ignoreChangeID) && (newExclusiveChangeKind != "" ==> snapRefreshKind(ranged0[j]) || (ignoreChangeID != "" && ranged0[j].id == ignoreChangeID))
+
+// a new change that has to run alone is refused while any other change is in progress, except
+// refresh-snap / revert-snap changes that are not snapd downgrades (see the observation in /verif/DESIGN.md 12.4)
+//@ func CheckChangeConflictRunExclusively
+//@   props C14
+//@   requires changesNonNil(st)
+//@   ensures [exclusive-in-progress] result == nil ==> forall k string :: has(st.changes, k) && unreadyChange(st.changes[k]) ==> !blocksEverything(st.changes[k], "")
+//@   ensures [runs-alone-except-refresh] result == nil && newChangeKind != "" ==> forall k string :: has(st.changes, k) && unreadyChange(st.changes[k]) ==> snapRefreshKind(st.changes[k])
+
+// ---- which snaps a task operates on ------------------------------------------------------------
+
+// The snap setup a task refers to (stored as JSON in the task, outside the model) and the verdicts of
+// the affected-snaps callbacks registered by the other managers are deterministic and do not modify
+// the state (assumption T5).
+//@ ghost setupErr(ref) iface
+//@ ghost setupInstanceName(ref) str
+//@ ghost cbErr(func, ref) iface
+//@ ghost cbAffects(func, ref, str) bool
+
+//@ define instanceNameOf(snapsup *SnapSetup) = ite(snapsup.InstanceKey != "", snapsup.SideInfo.RealName + "_" + snapsup.InstanceKey, snapsup.SideInfo.RealName)
+
+//@ func TaskSnapSetup
+//@   trusted
+//@   assigns nothing
+//@   ensures result1 == setupErr(t)
+//@   ensures result1 == nil ==> result0 != nil && instanceNameOf(result0) == setupInstanceName(t)
+//@   ensures result1 != nil ==> result0 == nil
+
+//@ func (*SnapSetup).SnapName
+//@   props C14
+//@   ensures result == snapsup.SideInfo.RealName && result != ""
+
+//@ func (*SnapSetup).InstanceName
+//@   props C14
+//@   ensures result == instanceNameOf(snapsup) && snapsup.SideInfo.RealName != ""
+
+//@ func (overlord/snapstate.AffectedSnapsFunc)
+//@   trusted
+//@   assigns nothing
+//@   ensures result1 == cbErr(recv, arg0)
+//@   ensures result1 == nil ==> forall s string :: {cbAffects(recv, arg0, s)} cbAffects(recv, arg0, s) ==> exists i int :: 0 <= i && i < len(result0) && result0[i] == s
+
+//@ define hasSetup(t *state.Task) = t.data["snap-setup"] != nil || t.data["snap-setup-task"] != nil
+
+// task t certainly operates on the snap called name: it carries (a reference to) a snap setup for it, or
+// the callback registered for its kind says so, or every callback registered for an attribute it has says so
+//@ define operatesOn(t *state.Task, name string) = (hasSetup(t) && setupErr(t) == nil && name == setupInstanceName(t)) || (!hasSetup(t) && affectedSnapsByKind[t.kind] != nil && cbAffects(affectedSnapsByKind[t.kind], t, name)) || (!hasSetup(t) && affectedSnapsByKind[t.kind] == nil && (exists k string :: has(affectedSnapsByAttr, k) && t.data[k] != nil) && forall k string :: has(affectedSnapsByAttr, k) && t.data[k] != nil ==> cbAffects(affectedSnapsByAttr[k], t, name))
+
+//@ func SnapsAffectedByTask
+//@   props C14
+//@   requires t != nil
+//@   assigns nothing
+//@   ensures [setup] result1 == nil && hasSetup(t) ==> setupErr(t) == nil && len(result0) == 1 && result0[0] == setupInstanceName(t)
+//@   ensures [complete] result1 == nil ==> forall n string :: {operatesOn(t, n)} operatesOn(t, n) ==> exists i int :: 0 <= i && i < len(result0) && result0[i] == n
+//@   loop 0: invariant forall k string :: visited(k) ==> t.data[k] == nil
+
+// ---- the conflict check ----------------------------------------------------------------------------
+
+// type invariant of the state: no nil task is registered
+//@ define tasksNonNil(st *state.State) = forall k string :: has(st.tasks, k) ==> st.tasks[k] != nil
+
+// task t does not stand in the way of an operation on the named snaps: its change does not take part in
+// conflict detection, or it operates on none of them
+//@ define noConflictWith(t *state.Task, names []string, ignore string) = irrelevantChange(t.state.changes[t.change], ignore) || forall j int :: 0 <= j && j < len(names) ==> !operatesOn(t, names[j])
+
+//@ func CheckChangeConflictMany
+//@   props C14
+//@   requires changesNonNil(st) && tasksNonNil(st)
+//@   ensures [exclusive-in-progress] result == nil ==> forall k string :: has(st.changes, k) && unreadyChange(st.changes[k]) ==> !blocksEverything(st.changes[k], ignoreChangeID)
+//@   ensures [no-task-on-same-snap] result == nil ==> forall k string :: has(st.tasks, k) ==> noConflictWith(st.tasks[k], instanceNames, ignoreChangeID)
+//@   ensures [creates-nothing] st.tasks == old(st.tasks) && st.changes == old(st.changes) && forall k string :: has(st.tasks, k) == old(has(st.tasks, k)) && has(st.changes, k) == old(has(st.changes, k))
+//@   ensures [single-name] result == nil && len(instanceNames) == 1 ==> forall k string :: has(st.tasks, k) ==> irrelevantChange(st.tasks[k].state.changes[st.tasks[k].change], ignoreChangeID) || !operatesOn(st.tasks[k], instanceNames[0])
+//@   loop 0: frame
+//@   loop 0: invariant -1 <= idx0 && idx0 < len(instanceNames) && snapMap != nil
+//@   loop 0: invariant forall j int :: 0 <= j && j <= idx0 ==> snapMap[instanceNames[j]]
+//@   loop 1: invariant -1 <= idx1 && idx1 < len(ranged1)
+//@   loop 1: invariant forall j int :: {ranged1[j]} 0 <= j && j < len(ranged1) ==> ranged1[j] != nil
+//@   loop 1: invariant forall j int :: 0 <= j && j < len(instanceNames) ==> snapMap[instanceNames[j]]
+//@   loop 1: invariant forall j int :: {ranged1[j]} 0 <= j && j <= idx1 ==> irrelevantChange(ranged1[j].state.changes[ranged1[j].change], ignoreChangeID) || forall n string :: {operatesOn(ranged1[j], n)} snapMap[n] ==> !operatesOn(ranged1[j], n)
+//@   loop 2: invariant -1 <= idx2 && idx2 < len(snaps) && err == nil && !irrelevantChange(chg, ignoreChangeID) && chg == task.state.changes[task.change] && 0 <= idx1 && idx1 < len(ranged1) && task == ranged1[idx1]
+//@   loop 2: invariant forall i int :: 0 <= i && i <= idx2 ==> !snapMap[snaps[i]]
+//@   loop 2: invariant forall n string :: {operatesOn(task, n)} operatesOn(task, n) ==> exists i int :: 0 <= i && i < len(snaps) && snaps[i] == n
+
+// Get decodes the stored record of a snap (JSON, outside the model) into the SnapState it is given and
+// writes nothing else (assumed frame)
+//@ func Get
+//@   trusted
+//@   assigns SnapState.* sequence.SnapSequence.*
+
+// the single-snap check: the same as the check for the one-element list, and if the caller passes the
+// snap record it prepared the request from, a nil answer is only given after that record was compared
+// (reflect.DeepEqual) with the record freshly loaded for the same snap name
+//@ func checkChangeConflictIgnoringOneChange
+//@   props C14
+//@   requires changesNonNil(st) && tasksNonNil(st)
+//@   ensures [exclusive-in-progress] result == nil ==> forall k string :: has(st.changes, k) && unreadyChange(st.changes[k]) ==> !blocksEverything(st.changes[k], ignoreChangeID)
+//@   ensures [no-task-on-same-snap] result == nil ==> forall k string :: has(st.tasks, k) ==> irrelevantChange(st.tasks[k].state.changes[st.tasks[k].change], ignoreChangeID) || !operatesOn(st.tasks[k], instanceName)
+//@   ensures [record-compared] result == nil && snapst != nil ==> called("reflect.DeepEqual")
+//@   guard call Get: [stored-record-of-same-snap] arg0 == st && arg1 == instanceName && called("CheckChangeConflictMany")
+//@   guard call reflect.DeepEqual: [caller-record-vs-stored] arg0v == snapst && called("Get")
+
+//@ func CheckChangeConflict
+//@   props C14
+//@   requires changesNonNil(st) && tasksNonNil(st)
+//@   ensures [exclusive-in-progress] result == nil ==> forall k string :: has(st.changes, k) && unreadyChange(st.changes[k]) ==> !blocksEverything(st.changes[k], "")
+//@   ensures [no-task-on-same-snap] result == nil ==> forall k string :: has(st.tasks, k) ==> irrelevantChange(st.tasks[k].state.changes[st.tasks[k].change], "") || !operatesOn(st.tasks[k], instanceName)
